@@ -213,5 +213,7 @@ class RydbergLindbladian:
         """Return the energy expectation value E=tr(H𝜌)"""
         en = (self.h_eff(state.data)).trace()
 
-        assert torch.allclose(en.imag, torch.zeros_like(en.imag), atol=1e-8)
+        # tr(H𝜌) is real for a Hermitian 𝜌. The evolved 𝜌 is Hermitian only up to the
+        # solver tolerance, so the residual imaginary part scales with the energy and
+        # with the number of steps: it is discarded, as the state-vector solver does.
         return en.real
